@@ -28,6 +28,12 @@ func (d *Day) At(h, m, s int) *calendar.Solar { return calendar.NewSolar(d.Y, d.
 // sweepDays visits every civil day of the shard's year ranges in order. prev is the previous
 // state of the same contiguous range (nil at range starts). A panic inside fn is reported as a
 // violation of the calling check and the sweep continues.
+// perturbCache: when set (by checks whose states are lunar objects), the one-slot year cache is primed with a
+// neighbouring year before two states out of five (deterministically by day number). A history-independent library
+// gives the same answers; one that peeks at whatever table happens to be cached does not — ordered sweeps alone
+// always find "the right" year in the cache.
+var perturbCache = false
+
 func sweepDays(w *W, id string, fn func(d *Day, prev *Day)) {
 	for _, r := range w.Shard.Ranges {
 		j0, j1 := rangeJDN(r)
@@ -41,6 +47,16 @@ func sweepDays(w *W, id string, fn func(d *Day, prev *Day)) {
 				continue
 			}
 			w.R.States++
+			if perturbCache {
+				switch j % 5 {
+				case 1:
+					try(func() { calendar.NewLunarYear(y + 1) })
+				case 3:
+					if y > 1 {
+						try(func() { calendar.NewLunarYear(y - 1) })
+					}
+				}
+			}
 			if msg, p := try(func() { fn(d, prev) }); p {
 				w.Viol(id+":panic:"+panicSite(msg), fmt.Sprintf("panic while evaluating state %s: %s", d.Ymd, msg), d.Ymd)
 			}
@@ -81,4 +97,15 @@ func listStrings(l *list.List) []string {
 
 func lunarYmd(l *calendar.Lunar) string {
 	return fmt.Sprintf("L%d/%d/%d", l.GetYear(), l.GetMonth(), l.GetDay())
+}
+
+// lunarP converts a civil moment to its lunar object and, on every second day, switches the day-boundary
+// convention of the Lunar's (shared) eight-character object to 1 first: attributes of the lunar date, of its
+// Taoist/Buddhist views and of its hour object must not depend on that option.
+func lunarP(s *calendar.Solar, j int) *calendar.Lunar {
+	l := s.GetLunar()
+	if j%2 == 0 {
+		l.GetEightChar().SetSect(1)
+	}
+	return l
 }
